@@ -55,6 +55,7 @@ type harnessProvider struct {
 	out             chan<- types.Log
 	subs            []ethereum.Subscription
 	ambiguousNext   bool
+	parkNextCall    *parkedCall
 	sent            int
 	recv0           int                   // logs the first subscription (the pool's original one) has received
 	q0              *ethereum.FilterQuery // its filter
@@ -101,10 +102,34 @@ func (p *harnessProvider) shutdown() {
 }
 
 func (p *harnessProvider) PendingCallContract(ctx context.Context, call ethereum.CallMsg) ([]byte, error) {
+	var out []byte
+	var err error
 	if p.pendingIsLatest {
-		return p.SimulatedBackend.CallContract(ctx, call, nil)
+		out, err = p.SimulatedBackend.CallContract(ctx, call, nil)
+	} else {
+		out, err = p.SimulatedBackend.PendingCallContract(ctx, call)
 	}
-	return p.SimulatedBackend.PendingCallContract(ctx, call)
+	// a slow answer: the call was evaluated against the chain as it is NOW, the reply reaches the pool later
+	p.mu.Lock()
+	park := p.parkNextCall
+	p.parkNextCall = nil
+	p.mu.Unlock()
+	if park != nil {
+		close(park.evaluated)
+		<-park.deliver
+	}
+	return out, err
+}
+
+type parkedCall struct{ evaluated, deliver chan struct{} }
+
+// slowNextCall makes the answer to the next contract call travel slowly: evaluated at once, delivered on demand.
+func (p *harnessProvider) slowNextCall() *parkedCall {
+	pc := &parkedCall{evaluated: make(chan struct{}), deliver: make(chan struct{})}
+	p.mu.Lock()
+	p.parkNextCall = pc
+	p.mu.Unlock()
+	return pc
 }
 
 // SendTransaction sometimes delivers the transaction and then reports a transport error (the reply was lost): the
@@ -662,3 +687,138 @@ func TestC07Contract(t *testing.T) {
 }
 
 var _ = crypto.Keccak256
+
+
+// TestC07LookupRace - a balance look-up of the wallet (pool_account, a client's keep-alive reading its wallet) whose
+// answer from the chain travels slowly while the wallet withdraws: whatever the pool does with the late answer, the
+// deposit is paid once.
+func TestC07LookupRace(t *testing.T) {
+	rec := vt.For("C07")
+	rec.Rule("look-up racing a withdrawal (real proxy on the simulated chain): a wallet the pool has never looked at deposits (events held back), somebody looks its balance up and the chain's answer - evaluated before the withdrawal - is delivered only after the wallet's pool_withdraw has been settled; the wallet then withdraws again before the settlement is mined, and once more after it is mined; oracle: the wallet receives exactly fee(deposit+credit) once (nothing if below the minimum), its on-chain deposit and stored credit are 0 afterwards; distinct by (fee, minimum, amounts, provider mode, look-up kind)")
+	check(t, func(rt *rapid.T) {
+		fee := rapid.SampledFrom([]string{"", "const", "prop"}).Draw(rt, "fee")
+		var min *big.Int
+		if rapid.Bool().Draw(rt, "min") {
+			min = big.NewInt(5000)
+		}
+		pendingIsLatest := rapid.Bool().Draw(rt, "pendingIsLatest")
+		f := newChainFixture(rt, fee, min, pendingIsLatest)
+		defer f.backend.Close()
+		defer f.provider.shutdown()
+		w := f.wallets[rapid.IntRange(0, 1).Draw(rt, "wallet")]
+		other := f.wallets[0]
+		if other.addr == w.addr {
+			other = f.wallets[1]
+		}
+		acct := w.addr
+		if rapid.Bool().Draw(rt, "lowerCase") {
+			acct = "0x" + strings.ToLower(w.addr[2:])
+		}
+		// the contract holds other depositors' funds as well (what a second payment would be taken from)
+		oo := bind.NewKeyedTransactor(other.key)
+		oo.Value = big.NewInt(50000000)
+		if _, err := f.contract.AddBalance(oo); err != nil {
+			rt.Fatalf("addBalance: %v", err)
+		}
+		f.backend.Commit()
+		dep := big.NewInt(int64(rapid.SampledFrom([]int{2501, 5000, 70000, 1000000}).Draw(rt, "deposit")))
+		f.provider.setHold() // the wallet's Balance event is under way: the pool has no cached deposit for it
+		wo := bind.NewKeyedTransactor(w.key)
+		wo.Value = dep
+		if _, err := f.contract.AddBalance(wo); err != nil {
+			rt.Fatalf("addBalance: %v", err)
+		}
+		f.backend.Commit()
+		cred := big.NewInt(int64(rapid.SampledFrom([]int{0, 1, 5000, 33333}).Draw(rt, "credit")))
+		if cred.Sign() > 0 {
+			if err := f.st.AddAccountBalance(store.Account(acct), cred); err != nil {
+				rt.Fatal(err)
+			}
+		}
+		viaNode := rapid.Bool().Draw(rt, "lookUpThroughANode")
+		nodeID := store.NodeID(nodeIdent(0).nodeID)
+		if viaNode {
+			if err := f.st.SetNode(store.Node{ID: nodeID, LastSeen: time.Now()}); err != nil {
+				rt.Fatal(err)
+			}
+			if err := f.st.AddAccountNode(store.Account(acct), nodeID); err != nil {
+				rt.Fatal(err)
+			}
+		}
+		total := new(big.Int).Add(dep, cred)
+		var pays *big.Int
+		switch fee {
+		case "const":
+			pays = new(big.Int).Sub(total, big.NewInt(2500))
+		case "prop":
+			pays = new(big.Int).Div(new(big.Int).Mul(total, big.NewInt(99)), big.NewInt(100))
+		default:
+			pays = new(big.Int).Set(total)
+		}
+		before := f.chainBalance(w.addr)
+		// 1. the look-up: its chain call is evaluated now, its answer is on its way
+		slow := f.provider.slowNextCall()
+		lookDone := make(chan error, 1)
+		go func() {
+			var err error
+			if viaNode {
+				_, err = f.proxy.GetNodeBalance(nodeID)
+			} else {
+				_, err = f.proxy.GetAccountBalance(store.Account(acct))
+			}
+			lookDone <- err
+		}()
+		select {
+		case <-slow.evaluated:
+		case <-time.After(10 * time.Second):
+			rt.Fatalf("[setup failed] the look-up never reached the chain")
+		}
+		// 2. the withdrawal (its own chain call is answered at once)
+		nonce := time.Now().UnixNano()
+		wd := func() error {
+			nonce++
+			return f.pay.Withdraw(context.Background(), mustSign(w.key, "pool_withdraw", acct, nonce), acct, nonce)
+		}
+		err1 := wd()
+		// 3. the look-up's answer arrives
+		close(slow.deliver)
+		if err := <-lookDone; err != nil {
+			rt.Fatalf("look-up: %v", err)
+		}
+		// 4. the wallet asks again before the settlement is mined ...
+		err2 := wd()
+		f.provider.release()
+		f.backend.Commit()
+		// ... and once more afterwards
+		time.Sleep(5 * time.Millisecond)
+		err3 := wd()
+		f.backend.Commit()
+		got := new(big.Int).Sub(f.chainBalance(w.addr), before)
+		got.Add(got, dep) // (the deposit itself left the wallet at the start of the window measured)
+		_ = got
+		received := new(big.Int).Sub(f.chainBalance(w.addr), before)
+		exec := !(min != nil && total.Cmp(min) < 0) && pays.Sign() >= 0
+		desc := fmt.Sprintf("fee=%q min=%v pending-from-latest=%v deposit=%s credit=%s account=%s look-up through a node=%v; withdraw errors: first %v, second (settlement unmined) %v, third (mined) %v", fee, min, pendingIsLatest, dep, cred, acct, viaNode, err1, err2, err3)
+		if classifyErr(err1).Kind == "verify" {
+			rt.Fatalf("correctly signed withdraw refused: %v", err1)
+		}
+		want := new(big.Int)
+		if exec {
+			want = pays
+		}
+		if received.Cmp(want) != 0 {
+			rt.Fatalf("a balance look-up whose answer from the chain arrived after the wallet's withdrawal was settled: the wallet received %s in total, %s is owed once (deposit %s + credit %s after the fee)\n%s", received, want, dep, cred, desc)
+		}
+		if exec {
+			if d := f.onChainDeposit(w.addr); d.Sign() != 0 {
+				rt.Fatalf("on-chain deposit after the withdrawal is %s\n%s", d, desc)
+			}
+			if sb, _ := f.st.GetAccountBalance(store.Account(acct)); sb.Credit.Sign() != 0 {
+				rt.Fatalf("stored credit after the withdrawal is %s\n%s", &sb.Credit, desc)
+			}
+		}
+		rec.Case(fmt.Sprintf("lookuprace|%s|%v|%v|%s|%s|%v", fee, min, pendingIsLatest, dep, cred, viaNode), exec, []string{"contract:lookup-race", fmt.Sprintf("contract:lookup-race:paid:%v", exec)}, func() interface{} {
+			return map[string]interface{}{"level": "contract, look-up racing a withdrawal", "fee": fee, "min": fmt.Sprint(min), "deposit": dep.String(), "credit": cred.String(), "lookup_through_node": viaNode, "received": received.String(), "errors": []string{fmt.Sprint(err1), fmt.Sprint(err2), fmt.Sprint(err3)}}
+		})
+	})
+}
